@@ -7,7 +7,8 @@ import sys
 
 HERE = os.path.dirname(os.path.abspath(__file__))
 sys.path.insert(0, HERE)
-sys.path.insert(0, "/repo")            # the current working tree of the implementation
+REPO = os.environ.get("VERIF_REPO", "/repo")   # /repo unless a background run points at a snapshot of it
+sys.path.insert(0, REPO)               # the current working tree of the implementation
 os.environ.setdefault("PYTHONHASHSEED", "0")
 os.environ.setdefault("SETIGEN_VERIF", "1")
 os.environ.setdefault("MPLBACKEND", "Agg")
@@ -32,8 +33,8 @@ def main():
         print("MACHINERY-FAILURE property=%s: no check module (%s)" % (pid, e))
         return 2
     import setigen
-    if not os.path.abspath(setigen.__file__).startswith("/repo/"):
-        print("MACHINERY-FAILURE: setigen imported from %s, not /repo" % setigen.__file__)
+    if not os.path.abspath(setigen.__file__).startswith(os.path.abspath(REPO) + "/"):
+        print("MACHINERY-FAILURE: setigen imported from %s, not %s" % (setigen.__file__, REPO))
         return 2
     return core.main_wrapper(mod.run, pid, a.tier, a.seed)
 
